@@ -94,7 +94,7 @@ def is_regular_inner(node):
     """inner nodes of the oracle's domain: leaves write in place without an out-key hook, nested sequences have the
     default configuration (DESIGN: the property's sequences are chains of in-place modules)"""
     if node["t"] == "mod":
-        return node["inpl"] is True and node["sel"] is None
+        return node["inpl"] is True          # select_out_keys on a leaf is fine since the repair of D9 / D141
     return node["inpl"] in (None, True) and node["sel"] is None and not node["pt"] and all(is_regular_inner(s) for s in node["ms"])
 
 
@@ -119,13 +119,13 @@ def spec_run(node, env, member=0):
                 raise Missing(k)
             args.append(env[k])
         for j, k in enumerate(l["outs"]):
-            if k != SINK:
+            if k != SINK and (l["sel"] is None or k in l["sel"]):      # select_out_keys: the other outputs are discarded
                 env[k] = ("app", l["id"], j, tuple(args))
     return env
 
 
 def spec_written(node):
-    return [k for l in leaves(node) for k in l["outs"]]
+    return [k for l in leaves(node) for k in l["outs"] if l["sel"] is None or k in l["sel"]]
 
 
 def spec_free_reads(node):
@@ -134,7 +134,7 @@ def spec_free_reads(node):
         for k in l["ins"]:
             if k not in seen and k not in free:
                 free.append(k)
-        seen.update(l["outs"])
+        seen.update(k for k in l["outs"] if l["sel"] is None or k in l["sel"])
     return free
 
 
@@ -903,10 +903,10 @@ def inner_seqs(node, top=True):
 
 
 def in_model_scope(g):
-    """the flat leaf-map model has no nested CONTAINER objects: a non-in-place inner sequence hands the nested node of its
-    executing tensordict to its fresh output (base.py:update sets the node itself), after which both alias; outside."""
-    uses_nested = any("." in k for l in leaves(g) for k in l["ins"] + l["outs"])
-    return not (uses_nested and any(s["inpl"] in (False, "empty") for s in inner_seqs(g)))
+    """every generated graph is inside the model.  (Before the fix of D143, update(keys_to_update) handed the nested node
+    of the executing tensordict to the fresh output of a non-in-place inner sequence; the flat leaf-map model has no
+    container objects and those cases were checked by the oracle only.)"""
+    return True
 
 
 def compare(kind, impl, model_results):
@@ -1022,31 +1022,10 @@ def classify(case, label, detail, sig):
     key = detail.get("key") if isinstance(detail, dict) else None
     where = detail.get("where") if isinstance(detail, dict) else None
     top_leaf = g["t"] == "mod"
-    if label == "footprint:entry-dropped":
-        for l in leaves(g):
-            if l["sel"] is not None and key not in l["ins"] and key not in l["sel"] and \
-                    (l["inpl"] is True or (top_leaf and c.get("tout") is not None)):
-                return "out-keys-hook-prunes-output"                           # D9
-    if label in ("footprint:entry-replaced", "footprint:wrote-non-out-key", "footprint:fresh-output-has-non-out-key"):
-        for l in leaves(g):
-            if l["sel"] is not None and key in l["ins"] and key in l["outs"] and key not in l["sel"]:
-                return "out-keys-hook-keeps-unselected-output-that-is-an-in-key"   # D141
     if label == "footprint:entry-replaced":
         for s in all_seqs(g):
             if s["sel"] is not None and key in spec_written(s) and key not in s["sel"]:
                 return "sequence-select-writes-back-overwritten-inputs"         # D142
-    if label in ("footprint:wrote-non-out-key", "footprint:fresh-output-has-non-out-key") and key and "." in key:
-        if sig.get("sibling"):
-            before = sig.get("_dest_before") or []
-            if not any("." in k and first(k) == first(key) for k in before):
-                return "update-keys_to_update-copies-sibling-leaves"            # D143
-    if label.startswith("subsequence:"):
-        if any(s.get("dict") and any(ch["t"] == "seq" for ch in s["ms"]) for s in all_seqs(g)):
-            return "select_subsequence-moduledict-with-nested-sequence"         # D144
-    if label == "dispatch:raises" and sig.get("sink_in_out_keys"):
-        return "dispatch-with-sink-out-key"                                     # D145
-    if label == "interact:mean-fallback":
-        return "mean-fallback-unreachable"                                      # D146
     return "none"
 
 
@@ -1138,16 +1117,15 @@ def main(R):
     R.assumptions = [
         "values are terms: every leaf module computes the interned identifier of App(id, out_index, input terms); the interner is a bijection, so equal numbers <=> equal terms",
         "keys have depth <= 2 and no key is a prefix of another; '_' is never an in_key (the constructor warns against it)",
-        "model scope: nested container objects are not modelled (cases where a non-in-place inner sequence aliases a nested node are checked by the oracle only)",
+        "nested container objects are not modelled (identity is compared on leaves)",
         "probabilistic modules are driven with a recording stub distribution: which attribute / method is consulted with which parameters and sample counts; real distributions' numerics are out of scope",
     ]
     R.trusted = ["harness/c14.py: generators, the 12-line Python fold used as spec oracle, canonicalisation (terms, identity classes)",
                  "torch.nn.Module call/hook machinery, CPython"]
     R.extra["stated_not_proved"] = [
-        "C14_module_footprint_full_statement (refuted: D9 D141 D142 D143; proved on the complement)",
-        "C14_subsequence_sound_full_statement (refuted: D144; proved without ModuleDict-based sequences and zero-output modules)",
-        "C14_forward_slice_executable_full_statement (proved only for in_keys selections covering the sequence's own in_keys; every subset is checked against the code by the harness)",
-        "C14_interact_table_full_statement (refuted: D146; proved on the complement and for the repaired table)"]
+        "C14_module_footprint_full_statement (refuted: D142, a sequence with select_out_keys; proved on the complement)",
+        "C14_subsequence_sound_full_statement (proved when every module has at least one out key)",
+        "C14_forward_slice_executable_full_statement (proved only for in_keys selections covering the sequence's own in_keys; every subset is checked against the code by the harness)"]
     R.step_prove()
     ok = R.step_driver()
     cases = gen_all(R)
